@@ -165,6 +165,30 @@ def rule_R1(ctx):
               "ciphers, extensions and signature algorithms are GREASE-filtered before use", "lists filtered in the generator: %s" % sorted(flt), ctx.loc(gen))
 
 
+def rule_R8(ctx):
+    """R8: the reported SNI and ALPN (and the two ALPN characters of JA4_a) come from the FIRST entry of the extension's list"""
+    P = ctx.program
+    b = P.body(TPR + "extract_tls_signature_from_client_hello")
+    S = T.Slicer(b, P)
+    aggs = Q.aggregates(b, "tls::Signature")
+    if not aggs:
+        ctx.cannot("R8", "sni-alpn:first", "Signature construction not found", ctx.loc(b))
+        return
+    i, j, s = aggs[-1]
+    f = dict(zip(s["r"]["fields"], [S.operand(o, i, j) for o in s["r"]["ops"]]))
+    for name in ("sni", "alpn"):
+        t = f.get(name)
+        if t is None:
+            ctx.cannot("R8", name + ":first", "field not found")
+            continue
+        calls = [x[1] for x in T.calls_in(t)]
+        firsts = [c for c in calls if c.endswith(("::first", "::next")) or (c.endswith("::get") and False)]
+        lasts = sorted({T.short(c) for c in calls if c.endswith(("::last", "::next_back", "::pop", "::max", "::min", "::nth", "::last_mut", "::max_by_key", "::min_by_key", "::rev"))})
+        ctx.check(bool(firsts) and not lasts, "R8", name + ":first", "%s = first entry of the list" % name,
+                  "%s is taken with %s instead of the first list entry: a client offering several protocols / names is reported (and fingerprinted in JA4_a) by another "
+                  "one than the specification's first" % (name, ",".join(lasts) or "an unrecognised selection"), ctx.loc(b, i))
+
+
 def rule_R2_R3_R4(ctx):
     P = ctx.program
     tab, db = G.display_enum_table(P, TLS + "TlsVersion")
@@ -465,5 +489,6 @@ def rule_extract(ctx):
 def run(ctx):
     rule_R1(ctx)
     rule_R2_R3_R4(ctx)
+    rule_R8(ctx)
     rule_R5_R6_R7(ctx)
     rule_extract(ctx)
